@@ -4,6 +4,7 @@ import (
 	"fmt"
 	"hash/fnv"
 	"math/rand"
+	"net"
 	"sort"
 	"strings"
 	"sync"
@@ -21,6 +22,15 @@ func fnvID(addr string) uint32 {
 	f := fnv.New32a()
 	f.Write([]byte(addr))
 	return f.Sum32()
+}
+
+// canonAddr is the address a spelling stands for (what net.ResolveTCPAddr makes of it, which is what a node reports).
+func canonAddr(a string) string {
+	t, err := net.ResolveTCPAddr("tcp", a)
+	if err != nil {
+		return a
+	}
+	return t.String()
 }
 
 // findCollisions searches loopback ip:port strings for FNV-1a collisions.
@@ -309,12 +319,28 @@ func runConfigProgram(e *Env, idx int, rng *rand.Rand, coll [][2]string) {
 	qs := &h.QSpec{}
 	// address pool for this program
 	var pool []string
+	aliases := 0
+	defer func() { R.Count("alias_spellings_in_address_pools", int64(aliases)) }()
 	for i := 0; i < 6+rng.Intn(8); i++ {
 		pool = append(pool, fmt.Sprintf("127.0.0.%d:%d", 1+rng.Intn(3), 9000+rng.Intn(40)))
 	}
 	if rng.Intn(3) == 0 && len(coll) > 0 {
 		p := coll[rng.Intn(len(coll))]
 		pool = append(pool, p[0], p[1])
+	}
+	if rng.Intn(3) == 0 {
+		// other spellings of pool addresses (resolved without any name service): the same address, hence the same node
+		plain := len(pool)
+		for k := 0; k < 2; k++ {
+			a := pool[rng.Intn(plain)]
+			host, port, _ := net.SplitHostPort(a)
+			if rng.Intn(2) == 0 {
+				pool = append(pool, host+":0"+port)
+			} else {
+				pool = append(pool, "[::ffff:"+host+"]:"+port)
+			}
+			aliases++
+		}
 	}
 	reg := map[uint32]string{}           // model registry: id -> address
 	ptrs := map[uint32]*gorums.RawNode{} // first pointer seen per id
@@ -454,6 +480,7 @@ func runConfigProgram(e *Env, idx int, rng *rand.Rand, coll [][2]string) {
 			byID := map[uint32]string{}
 			collide := false
 			for _, a := range addrs {
+				a = canonAddr(a)
 				id := fnvID(a)
 				if asked[id] == nil {
 					asked[id] = map[string]bool{}
@@ -497,7 +524,7 @@ func runConfigProgram(e *Env, idx int, rng *rand.Rand, coll [][2]string) {
 				case 0:
 					id = uint32(1 + rng.Intn(6))
 				case 1:
-					id = fnvID(a)
+					id = fnvID(canonAddr(a))
 				default: // an id that is already registered (possibly under another address)
 					ids := sortedIDs(func() map[uint32]bool {
 						x := map[uint32]bool{}
@@ -520,6 +547,7 @@ func runConfigProgram(e *Env, idx int, rng *rand.Rand, coll [][2]string) {
 			byID := map[uint32]string{}
 			conflict := false
 			for a, id := range m {
+				a = canonAddr(a)
 				if asked[id] == nil {
 					asked[id] = map[string]bool{}
 				}
@@ -648,6 +676,7 @@ func runConfigProgram(e *Env, idx int, rng *rand.Rand, coll [][2]string) {
 			byID := map[uint32]string{}
 			collide := false
 			for _, ad := range addrs {
+				ad = canonAddr(ad)
 				id := fnvID(ad)
 				if asked[id] == nil {
 					asked[id] = map[string]bool{}
